@@ -94,8 +94,8 @@ impl Prop for C07 {
 
     fn budget(tier: Tier) -> Budget {
         match tier {
-            Tier::Quick => Budget { cases: 6000, shards: 16 },
-            Tier::Thorough => Budget { cases: 250_000, shards: 16 },
+            Tier::Quick => Budget { cases: 48000, shards: 16 },
+            Tier::Thorough => Budget { cases: 384000, shards: 16 },
         }
     }
 
